@@ -28,6 +28,21 @@
    * User future: a script of [uprim]; `create_future()` = UStart, each poll = UPoll then one UStep per primitive,
      completion = UFinish v, destruction before completion = UCancel.
 
+   Steps and the code's atomic operations (for the replay of implementation logs; [step_label])
+   * LReadySend  = `queue_ready_send.send(())` (slot job S1)        LReadyPoll = `recv.poll_unpin` (SyncFuture::poll)
+   * LFinSend    = `task_finished.take().map(send)`                 LFinPoll   = one poll of `done_recv` (slot job S2)
+   * LSfSignal   = `send.signal(())` (slot job S3)                  LSfPoll    = one critical section on the
+     SchedulerFutureResult mutex by the poller: the first one of `SchedulerFuture::poll` (take, else set waker), and in
+     `drain_queue` the `take()` at the top of the loop (PDrainLoop), the `take()` after a Pending job (PDrainPend) and
+     the `waker = Some(..)` assignment (PDrainWaker)
+   * LEvent      = an operation on an external event cell (the user future's check-and-register, or the event firing)
+   * LDrop       = the drop of the SyncFuture: the decision [ADrop] and the two field drops that touch a channel
+   * LQueue      = dequeue of the next job (ghost OStart/SlotStart) and the end of another operation (ghost OFinish)
+   * None        = control only (poll begins, `create_future()`, the user future's poll begins / UTouch / completion)
+   NOT steps of this model: the critical sections on the JobQueue core mutex other than the dequeue (requeue, state
+   changes Idle/Running/WaitingForWake/WaitingForPoll, reschedule_queue), on the DrainWaker/DoubleWaker mutexes and on
+   the scheduler core.  They belong to the queue state machine, which is abstracted here.
+
    Deviations (none of them changes what other parties can observe)
    * The receiver halves are dropped where Rust drops them only when observable: `ready`'s receiver when the
      SyncFuture is dropped in WaitingForQueue, in the Err branch, and (folded into the same step) after
@@ -37,10 +52,19 @@
      `DoubleWaker(queue waker, context waker)`.  The model stores [WBoth] directly in `fin` at S2 when the runner is the
      task: a wake that arrives before `wake_with` is remembered by the DrainWaker (state Woken) and delivered by `wake_with`,
      so the net effect is the same, only later; T is inside its poll at that time so it will be polled again.
+   * The task may enter `drain_queue` in any state of the queue (the code: only when the queue is Idle, Pending or
+     WaitingForPoll(own id)); it then continues whatever operation is in progress.  This only adds behaviours.
    * `drop(scheduler_future)` has no step (its Drop is empty).
    * Other operations take two steps (start, finish) and never suspend by themselves.
+   * UFinish stands for "the user future returned Ready and everything it owned is destroyed".  This is what
+     `Desync::future_sync` provides (its future is `async { job.await }`, which drops `job` when it completes); the
+     boxed, completed future object itself is dropped by `SyncFuture::poll` only at the end of the match arm, i.e. AFTER
+     `task_finished.send(())` - harmless for a completed `async` block, but a hand-written future passed directly to
+     `Scheduler::future_sync` that still owns something after returning Ready would release it outside the slot.
    * The `Err` results (`queue_ready` sender dropped, scheduler future cancelled) are in the step function for the
      replay, but nothing in the model destroys the slot job, so they are unreachable (proved: [RetErr] never logged).
+   * [f_state_dropped_first] is transcribed by hand from the declaration order of `struct SyncFuture`
+     (`state`, `scheduler_future`, `task_finished`); it should be produced by the translator.
 *)
 From stdpp Require Import list numbers option.
 From RecordUpdate Require Import RecordUpdate.
@@ -360,6 +384,11 @@ Definition script_ok (nev : nat) (scr : list uprim) : Prop := forall e, UAwait e
 (* no actor of the system proper can move (the environment's free choices ADrop and AWake are not counted) *)
 Definition terminal (F : sfacts) (s : state) : Prop :=
   step F s AQueue = None /\ step F s ATask = None /\ step F s ADrain = None /\ forall e, step F s (AEvent e) = None.
+
+(* a computable sufficient check, for the examples *)
+Definition is_none {A} (o : option A) : bool := match o with None => true | Some _ => false end.
+Definition terminalb (F : sfacts) (s : state) : bool :=
+  is_none (step F s AQueue) && is_none (step F s ATask) && is_none (step F s ADrain) && forallb fired s.(evs).
 
 (* log vocabulary used by the statements *)
 Definition in_slot (l : list ev) : Prop := SlotStart ∈ l /\ SlotEnd ∉ l.
